@@ -314,6 +314,9 @@ def rule_R4(ctx, typer, funcs):
                     continue
                 n += 1
                 name = node.value.id
+                if _short_circuit_guarded(f, node, name):
+                    ctx.inst("R4", f, node, "index read guarded by a short-circuit non-emptiness test")
+                    continue
                 holder = _stmt_cfg_nodes(cfg, f, node)
                 ok = bool(holder)
                 for cn in holder:
@@ -332,6 +335,24 @@ def rule_R4(ctx, typer, funcs):
 
 
 def _is_cache_lookup(node):
+    return False
+
+
+def _short_circuit_guarded(func, sub, name):
+    """`X and ... X[0] ...` / `bool(X) and ...` / `X[0] if X else ...` in value position"""
+    def is_nonempty_test(e):
+        if isinstance(e, ast.Name) and e.id == name:
+            return True
+        if isinstance(e, ast.Call) and norm(e.func) in ("bool", "len") and e.args and norm(e.args[0]) == name:
+            return True
+        return False
+    for n in walk_own(func.node):
+        if isinstance(n, ast.BoolOp) and isinstance(n.op, ast.And):
+            for i, v in enumerate(n.values):
+                if any(x is sub for x in ast.walk(v)) and any(is_nonempty_test(w) for w in n.values[:i]):
+                    return True
+        if isinstance(n, ast.IfExp) and is_nonempty_test(n.test) and any(x is sub for x in ast.walk(n.body)):
+            return True
     return False
 
 
@@ -708,4 +729,49 @@ def rule_R6_string_compare(ctx, typer, funcs):
                     from ..nodetype import show
                     ctx.viol("R6", f, node, "the node's name reaches the comparison as `%s` (type %s), not through the str()-coercing "
                              "accessor: non-string names (ints, enums) no longer resolve, and str methods may raise" % (norm(a0), show(t)))
+    return n
+
+
+# ---------------------------------------------------------------------- G6
+def rule_G6_no_extra_pruning(ctx, typer):
+    """in __find every child whose name matches contributes: on every normal
+    path from `match is true` back to the loop head the child is appended or
+    recursed into — no shortcut skips matching children"""
+    cls, funcs = resolver_funcs(ctx.p)
+    f = funcs.get("__find")
+    if f is None:
+        raise AnalysisError("anchor Resolver.__find not found")
+    cfg = typer.cfg_of(f)
+    acc = set()
+    for r in walk_own(f.node):
+        if isinstance(r, ast.Return) and isinstance(r.value, ast.Name):
+            acc.add(r.value.id)
+    adders = []
+    for cn in cfg.nodes:
+        if cn.kind != "stmt":
+            continue
+        a = cn.ast
+        if isinstance(a, ast.AugAssign) and isinstance(a.target, ast.Name) and a.target.id in acc:
+            adders.append(cn)
+        elif isinstance(a, ast.Expr) and isinstance(a.value, ast.Call) and isinstance(a.value.func, ast.Attribute) \
+                and a.value.func.attr in ("append", "extend") and norm(a.value.func.value) in acc:
+            adders.append(cn)
+        elif isinstance(a, ast.Assign) and any(isinstance(t, ast.Name) and t.id in acc for t in a.targets) and not (isinstance(a.value, ast.List) and not a.value.elts):
+            adders.append(cn)
+    n = 0
+    guards = [g for g in cfg.nodes if g.kind == "guard" and g.outcome is True and isinstance(g.cond, ast.Call)
+              and norm(g.cond.func).endswith("__match")]
+    heads = [h for h in cfg.nodes if h.kind == "fornext"]
+    if not guards or not heads or not adders:
+        raise AnalysisError("anchor: match guard / result accumulation in Resolver.__find not found")
+    for g in guards:
+        n += 1
+        reach = cfg.reach_from(g, avoid=adders, labels_excluded=("exc",))
+        skipped = [h for h in heads if h.id in reach] + ([cfg.exit] if cfg.exit.id in reach else [])
+        if skipped:
+            ctx.viol("G6", f, g.cond, "a child whose name matches the pattern can be skipped: some path from the successful match to the "
+                     "next child neither records it nor descends into it — the result no longer contains exactly the nodes the pattern denotes",
+                     construct="__find: matching child skipped on some path")
+        else:
+            ctx.inst("G6", f, g.cond, "every matching child is recorded or descended into")
     return n
